@@ -308,6 +308,19 @@ func matchFields(body []byte, pos int, first bool, order []string, ev *jsonv.Nod
 	return nil
 }
 
+// failOut16 accepts a few bytes, then fails.
+type failOut16 struct{ accept int }
+
+func (f *failOut16) Write(p []byte) (int, error) {
+	if len(p) <= f.accept {
+		f.accept -= len(p)
+		return len(p), nil
+	}
+	n := f.accept
+	f.accept = 0
+	return n, fmt.Errorf("destination failed")
+}
+
 var c16zones = []struct {
 	n string
 	l *time.Location
@@ -441,6 +454,13 @@ func c16(args []string) int {
 					out.Count("events_without_a_standard_level", 1)
 				}
 				rs := p.S.Apply()
+				if nrend%3 == 0 {
+					// some other ConsoleWriter of the process has just failed to get a line out (its destination
+					// refused it, or took only a few bytes): that must not leak into what this one renders
+					bad := zerolog.ConsoleWriter{Out: &failOut16{accept: []int{0, 7, 1}[nrend/3%3]}, NoColor: true}
+					bad.Write(w.P)
+					out.Count("renderings_after_a_failed_write_elsewhere", 1)
+				}
 				var ob bytes.Buffer
 				cw := zerolog.ConsoleWriter{Out: &ob, NoColor: true, TimeFormat: c.TimeFormat, TimeLocation: c.Loc, PartsOrder: c.PartsOrder,
 					PartsExclude: c.PartsExclude, FieldsOrder: c.FieldsOrder, FieldsExclude: c.FieldsExclude}
